@@ -59,8 +59,13 @@ class _Table:
 
 
 def local_cost(a, b) -> int:
+    return sum(local_cost2(a, b))
+
+
+def local_cost2(a, b):
+    """(unshared nodes of a, unshared nodes of b)."""
     if a == b:
-        return 0
+        return (0, 0)
     old = sys.getrecursionlimit()
     sys.setrecursionlimit(max(old, 20000))
     try:
@@ -69,7 +74,7 @@ def local_cost(a, b) -> int:
         sys.setrecursionlimit(old)
 
 
-def _local_cost(a, b) -> int:  # noqa: C901, PLR0915
+def _local_cost(a, b):  # noqa: C901, PLR0915
     tb = _Table()
     ra, rb = tb.cons(a), tb.cons(b)
     in_a, in_b = tb.reach(ra), tb.reach(rb)
@@ -103,37 +108,44 @@ def _local_cost(a, b) -> int:  # noqa: C901, PLR0915
             return atom[ks[0]]
         return None
 
+    def add(x, y):
+        return (x[0] + y[0], x[1] + y[1])
+
+    def tot(x):
+        return x[0] + x[1]
+
     def cost(i, j):
+        """(unshared nodes on the a side, unshared nodes on the b side) of the cheapest alignment."""
         if i == j:
-            return 0
+            return (0, 0)
         if (i, j) in seen_pairs:
-            return 0  # the same deviation, repeated by inlining
+            return (0, 0)  # the same deviation, repeated by inlining
         seen_pairs.add((i, j))
         if (i, j) in cost_memo:
             return cost_memo[(i, j)]
         ki, kj = kids[i], kids[j]
         if ki is None and kj is None:
-            r = 1
+            r = (1, 1)
         elif ki is None or kj is None:
-            r = csize(i, in_b) + csize(j, in_a)
+            r = (csize(i, in_b), csize(j, in_a))
             if ki is None and kj is not None and reaches(j, i):
-                r = min(r, csize(j, in_a))
+                r = min(r, (0, csize(j, in_a)), key=tot)
             if kj is None and ki is not None and reaches(i, j):
-                r = min(r, csize(i, in_b))
+                r = min(r, (csize(i, in_b), 0), key=tot)
         else:
-            r = csize(i, in_b) + csize(j, in_a)
+            r = (csize(i, in_b), csize(j, in_a))
             if reaches(i, j):
-                r = min(r, max(csize(i, in_b) - 1, 1))
+                r = min(r, (max(csize(i, in_b) - 1, 1), 0), key=tot)
             elif reaches(j, i):
-                r = min(r, max(csize(j, in_a) - 1, 1))
+                r = min(r, (0, max(csize(j, in_a) - 1, 1)), key=tot)
             hi, hj = head(i), head(j)
             if (hi is None) == (hj is None) and hi == hj:
                 if len(ki) == len(kj):
-                    c = 0
+                    c = (0, 0)
                     for x, y in zip(ki, kj, strict=True):
                         if x != y:
-                            c += cost(x, y)
-                    r = min(r, c)
+                            c = add(c, cost(x, y))
+                    r = min(r, c, key=tot)
                 elif len(ki) * len(kj) <= 10000:
                     n, m = len(ki), len(kj)
                     L = [[0] * (m + 1) for _ in range(n + 1)]
@@ -154,14 +166,14 @@ def _local_cost(a, b) -> int:  # noqa: C901, PLR0915
                             q += 1
                     ua += ki[p:]
                     ub += kj[q:]
-                    c = 0
+                    c = (0, 0)
                     for x, y in zip(ua, ub, strict=False):
-                        c += cost(x, y)
+                        c = add(c, cost(x, y))
                     for x in ua[len(ub):]:
-                        c += csize(x, in_b)
+                        c = add(c, (csize(x, in_b), 0))
                     for y in ub[len(ua):]:
-                        c += csize(y, in_a)
-                    r = min(r, c)
+                        c = add(c, (0, csize(y, in_a)))
+                    r = min(r, c, key=tot)
         cost_memo[(i, j)] = r
         return r
 
